@@ -11,6 +11,19 @@ CLAIMED = {
    design="§3 C08"),
 }
 
+CLAIMED["C15"] = dict(
+   technique="property-based testing: generated regular-expression ASTs built through the public NFA combinators, compiled DFA compared with a Brzozowski-derivative reference matcher on all strings up to a length bound (differential, bounded-exhaustive per expression)",
+   level="exploration",
+   text="For each generated expression (incl. ?/+ around operands that begin or end with a loop, tagged flat and nested choices) acceptance, dead-transition soundness, tag sets, terminal flag and determinism are compared with the derivative matcher on every string over {a,b,c} up to length 5 (6 in thorough) and on random longer strings. Sampled over expressions, exhaustive over short inputs per expression.",
+   note="Trusted base: the 150-line derivative matcher in refre.rs. Tags are checked for tags on alternatives of a top-level (possibly nested) choice only.",
+   design="§3 C15")
+CLAIMED["C07"] = dict(
+   technique="property-based testing: model-based (matrix-of-offsets model) over generated view/transpose programs, carriers and access operations; address-level check of the mutable iterator",
+   level="exploration",
+   text="Generated chains of up to 5 view/transpose steps with selectors of every form and integer type, realised over nested owned views, &mut re-borrows, & borrows and Arc; every read operation and each mutation is compared against a plain matrix model, the whole base matrix is compared after mutation, and iter_mut references are collected before writing and their addresses compared with the model's cells.",
+   note="Selector resolution relies on C08's reference; non-aliasing is decided as address distinctness, not as a Stacked-Borrows verdict.",
+   design="§3 C07")
+
 NOT_APPLICABLE = {}
 
 def main():
